@@ -4,8 +4,6 @@ From AcryoGen Require Import Anchors_C02.
 Import ListNotations.
 Local Open Scope Z_scope.
 
-Ltac qdiv2 := unfold Qdiv in *; change (/ (2#1))%Q with (1#2) in *.
-
 Ltac split_ltb :=
   repeat match goal with
          | |- context [(?a <? ?b)%Z] => destruct (Z.ltb_spec a b)
